@@ -375,6 +375,19 @@ def object_shapes(nm: Namer) -> Dict[str, Callable[[T, Ctx], Optional[T]]]:
             ),
         )
 
+    def ser_rec_method(x, c):
+        # the class is recursive only through the return types of its serialized methods
+        n = nm("O")
+        return Obj(
+            "dataclass",
+            n,
+            (F("a", x),),
+            methods=(
+                M("kids", Coll("list", Ref(n)), "[]", lambda fs: []),
+                M("nxt", Opt(Ref(n)), "None", lambda fs: None),
+            ),
+        )
+
     def ser_if(x, c):
         f = dfield("b", x, c, ser_default=True)
         return f and Obj("dataclass", nm("O"), (F("a", x, ser_if="lambda v: not v"), f))
